@@ -312,6 +312,13 @@ func (sf *IteratorDatastore) ReadStartingWithUser(
 	it, created, err := item.unwrap()
 	if err != nil {
 		sf.internalStorage.rswu.CompareAndDelete(cacheKey, newStorageItem)
+		if item != newStorageItem && ctx.Err() == nil {
+			// The iterator was being created by another request and that attempt failed,
+			// e.g. because that request was cancelled. Its error says nothing about this
+			// request, so read directly instead of inheriting it.
+			sharedIteratorBypassed.WithLabelValues(storage.OperationReadStartingWithUser).Inc()
+			return sf.RelationshipTupleReader.ReadStartingWithUser(ctx, store, filter, options)
+		}
 		return nil, err
 	}
 
@@ -393,6 +400,13 @@ func (sf *IteratorDatastore) ReadUsersetTuples(
 	it, created, err := item.unwrap()
 	if err != nil {
 		sf.internalStorage.rut.CompareAndDelete(cacheKey, newStorageItem)
+		if item != newStorageItem && ctx.Err() == nil {
+			// The iterator was being created by another request and that attempt failed,
+			// e.g. because that request was cancelled. Its error says nothing about this
+			// request, so read directly instead of inheriting it.
+			sharedIteratorBypassed.WithLabelValues(storage.OperationReadUsersetTuples).Inc()
+			return sf.RelationshipTupleReader.ReadUsersetTuples(ctx, store, filter, options)
+		}
 		return nil, err
 	}
 
@@ -472,6 +486,13 @@ func (sf *IteratorDatastore) Read(
 	it, created, err := item.unwrap()
 	if err != nil {
 		sf.internalStorage.read.CompareAndDelete(cacheKey, newStorageItem)
+		if item != newStorageItem && ctx.Err() == nil {
+			// The iterator was being created by another request and that attempt failed,
+			// e.g. because that request was cancelled. Its error says nothing about this
+			// request, so read directly instead of inheriting it.
+			sharedIteratorBypassed.WithLabelValues(storage.OperationRead).Inc()
+			return sf.RelationshipTupleReader.Read(ctx, store, filter, options)
+		}
 		return nil, err
 	}
 
